@@ -42,7 +42,7 @@ ASSUMPTIONS = [
     'symbol tables are generated without STT_GNU_IFUNC / STB_GNU_UNIQUE and notes without annobin/stapsdt owners: the clone\'s '
     'description tables have no entries for them',
 ]
-KINDS = {'corpus': (288, 1011, 0), 'compiled': (20, 44, 1), 'descr': (60, 60, 2), 'dwdescr': (40, 40, 1), 'generated': (240, 2400, 4)}
+KINDS = {'corpus': (288, 1011, 0), 'compiled': (20, 44, 1), 'descr': (60, 60, 2), 'dwdescr': (40, 40, 1), 'generated': (260, 2600, 4)}
 FLOOR = {'quick': 150, 'thorough': 600}
 CASE_TIMEOUT = 1200
 OPTIONS = ['-e', '-d', '-s', '-n', '-r', '-x.text', '-p.shstrtab', '-V', '--debug-dump=info', '--debug-dump=decodedline',
@@ -1068,12 +1068,27 @@ def gen_families():
         machines = sorted({E.ENUM_E_MACHINE[k] for k in D._DESCR_E_MACHINE if isinstance(E.ENUM_E_MACHINE.get(k), int)})
         osabis = sorted({E.ENUM_EI_OSABI[k] for k in D._DESCR_EI_OSABI if isinstance(E.ENUM_EI_OSABI.get(k), int)})
         return dynobj.gen_header_file(rng, machines, [o for o in osabis if o <= 18])      # the generic OS ABIs; the table itself is a descr table
+    def attrs(rng):
+        av = {}
+        for name, t in E.ENUM_ATTR_TAG_ARM.items():
+            if t > 3 and t != 64 and name in D._DESCR_ATTR_TAG_ARM:
+                d = D._DESCR_ATTR_VAL_ARM[t - 1] if t - 1 < len(D._DESCR_ATTR_VAL_ARM) else None
+                if name == 'TAG_FRAMEPOINTER_USE':
+                    continue            # no name in readelf 2.40
+                av[t] = sorted(d) if isinstance(d, dict) else []
+        rv = {}
+        for name, t in E.ENUM_ATTR_TAG_RISCV.items():
+            if t > 3 and name in D._DESCR_ATTR_TAG_RISCV and t not in (14, 16):      # 14/16: no name in readelf 2.40
+                d = D._DESCR_ATTR_VAL_RISCV.get(t)
+                rv[t] = sorted(d) if isinstance(d, dict) else []
+        return dynobj.gen_attrs_file(rng, av, rv)
     return [('versions', ['-V', '-s', '-d', '-e'], dynobj.gen_versions), ('notes', ['-n'], dynobj.gen_notes_file),
+            ('attrs', ['-A'], attrs),
             ('headers', ['-h', '-e'], headers),
             ('symtab', ['-s', '-e'], dynobj.gen_symtab_file), ('relocs', ['-r'], relocs),
             ('layout', ['-e', '-l', '-S', '-h'], dynobj.gen_layout_file),
             ('sections', ['-S', '-e', '-s', '-r'], dynobj.gen_sections_file),
-            ('dumps', ['-x.text', '-p.comment', '-x.comment', '-p.text', '-x.empty', '-x.bss', '-p.shstrtab'], dynobj.gen_dump_file),
+            ('dumps', ['-x.text', '-p.comment', '-x.comment', '-p.text', '-x.empty', '-x.bss', '-p.shstrtab', '-x1', '-x5', '-p2'], dynobj.gen_dump_file),
             ('lines', ['--debug-dump=decodedline'], dwenv.gen_lines_file),
             ('frames', ['--debug-dump=frames', '--debug-dump=frames-interp'], dwenv.gen_frames_file),
             ('names', ['--debug-dump=aranges', '--debug-dump=pubnames', '--debug-dump=pubtypes', '--debug-dump=info'], dwenv.gen_names_file),
